@@ -215,14 +215,22 @@ def run_history(ctx, rng, n_ops, pool_ref):
         poison(ctx, u)
       elif op in ('copy', 'copy_fn'):
         add = gen_source(rng, rng.randint(0, 2), counter)
-        if rng.random() < 0.3:
+        inner_src = add
+        r_kind = rng.random()
+        if r_kind < 0.3:
           add = FrozenDict(add)
+        elif r_kind < 0.55:
+          # copy() is typed `Mapping`: read-only views and other Mapping classes around a plain (nested) dict the caller still owns
+          import collections
+          import types
+          add = rng.choice([types.MappingProxyType, lambda d_: collections.ChainMap(d_), collections.UserDict, collections.OrderedDict])(add)
         want = dict(golden(fd))
         want.update(golden(add))
         new = fd.copy(add) if op == 'copy' else fdm.copy(fd, add)
         ctx.check(isinstance(new, FrozenDict) and _geq(golden(new), want), 'api:copy_wrong', lambda: dict(want=repr(want)[:200], got=repr(golden(new))[:200]))
         pool.add(new)
         poison(ctx, add)
+        poison(ctx, inner_src)   # the dict behind a view / wrapper
       elif op in ('pop', 'pop_fn'):
         if len(fd):
           k = rng.choice(list(fd.keys()))
